@@ -138,6 +138,9 @@ def gen_history(rng, length, max_prs=3):
                 evs.append(['Label', n, rng.random() < 0.25, rng.random() < 0.3, rng.random() < 0.1])
             elif r < 0.62:
                 evs.append(['Status', n, rng.choice([1, 1, 2]), rng.choice(['SUCCESS'] * 7 + ['PENDING', 'FAILURE', 'FAILURE'])])
+                if rng.random() < 0.06:      # a PR with more checks than one page of the status query
+                    evs += [['Status', n, c, 'SUCCESS'] for c in range(3, rng.randint(11, 14))]
+                    evs.append(['Status', n, rng.randint(9, 13), rng.choice(['SUCCESS', 'FAILURE', 'PENDING'])])
             elif r < 0.70:
                 evs.append(['TargetMove'])
             else:
@@ -187,6 +190,11 @@ def small_scope():
             out.append(pre + gate + cyc + [["BatchComplete", 1, ok], ["UpdateBatch"], ["TargetMove"]] + cyc + [["BatchComplete", 1, ok]] + cyc)
             out.append(pre + gate + cyc + [["BatchComplete", 1, ok], ["UpdateBatch"], ["Push", 1], ["Fetch", 0], ["HealMerge", True], ["BatchComplete", 1, ok],
                                            ["UpdateBatch"], ["HealMerge", True]])
+    # more status checks than one GraphQL page holds (the query asks for 10 per page): a failing / pending check on a later page
+    many = [["Status", 1, c, "SUCCESS"] for c in range(1, 14)]
+    for bad_ctx, st in ((11, "FAILURE"), (13, "PENDING"), (12, "FAILURE"), (10, "FAILURE"), (None, None)):
+        bad = [["Status", 1, bad_ctx, st]] if bad_ctx else []
+        out.append([["Open", 1], ["Review", 1, "APPROVED"]] + many + bad + cyc + [["BatchComplete", 1, True]] + cyc + cyc)
     out.append(two)
     out.append(two[:11] + [["Label", 2, False, True, False], ["Fetch", None]] + two[11:])
     return out
@@ -360,6 +368,8 @@ def check_merges(merges):
             v.append('status-not-success')
         if any(f != m['sha'] for _, f in m['statuses'].values()):
             v.append('status-of-previous-head')
+        if any(st != 'SUCCESS' for st in (m.get('unseen_statuses') or {}).values()):
+            v.append('unrecorded-status-not-success')
         b = m['batch']
         if b is None or b['source_sha'] != m['sha']:
             v.append('no-batch-for-head')
